@@ -188,9 +188,9 @@ def judge(m, prof, enc=(True, False)):
                 # one list of losers handed to every construction for this winner (a caller's list must survive the call)
                 losers = [NAMES[c] for c in range(m) if c != w]
                 for si, share in enumerate(SHARES):
-                    con = contest(m, (w,), Contest.SOCIAL_CHOICE_FUNCTION.SUPERMAJORITY, share=share, cards=len(pool))
+                    con = contest(m, (w,), Contest.SOCIAL_CHOICE_FUNCTION.SUPERMAJORITY, share=(None if si == 2 else share), cards=len(pool))
                     try:
-                        if si % 2 == 0:  # the share passed explicitly ...
+                        if si % 2 == 0:  # the share passed explicitly (for the third share: ONLY explicitly, the contest has none) ...
                             asns = Assertion.make_supermajority_assertion(con, share_to_win=share, winner=NAMES[w], loser=losers, test=NonnegMean.alpha_mart)
                         else:  # ... or left to the contest's own share_to_win
                             asns = Assertion.make_supermajority_assertion(con, winner=NAMES[w], loser=losers, test=NonnegMean.alpha_mart)
